@@ -294,6 +294,7 @@ type Effect struct {
 	Kind string
 	Args []Value
 	Pos  token.Pos
+	Root token.Pos // position of the outermost inlined call the effect happened under (NoPos: in the analysed function itself)
 }
 
 func (e Effect) String() string {
@@ -314,6 +315,7 @@ type State struct {
 	Effects []Effect
 	Notes   []string // reasons this path is undecided (unsupported instruction, opaque call, ...)
 	Steps   int
+	Stack   []token.Pos // positions of the calls currently being analysed inline, outermost first
 }
 
 func NewState() *State {
@@ -334,6 +336,7 @@ func (s *State) Clone() *State {
 	n.Facts = append([]Fact(nil), s.Facts...)
 	n.Effects = append([]Effect(nil), s.Effects...)
 	n.Notes = append([]string(nil), s.Notes...)
+	n.Stack = append([]token.Pos(nil), s.Stack...)
 	n.Zone = s.Zone.Clone()
 	return n
 }
